@@ -79,6 +79,7 @@ func (p *Program) pointeeHeaps(t types.Type) []string {
 type directInfo struct {
 	heaps   map[string]bool
 	fresh   map[string]bool // heaps touched only at objects allocated by the function itself
+	readsRefGlobal bool     // loads a package-level variable that holds references
 	callees []*ssa.Function
 	sigs    []*types.Signature
 }
@@ -212,10 +213,36 @@ func (p *Program) direct(fn *ssa.Function) *directInfo {
 				d.callees = append(d.callees, in.Fn.(*ssa.Function))
 			case ssa.CallInstruction:
 				p.directCall(d, in.Common(), add)
+			case *ssa.UnOp:
+				if g, ok := in.X.(*ssa.Global); ok && !valueOnlyType(deref(g.Type()), 0) {
+					d.readsRefGlobal = true
+				}
 			}
 		}
 	}
 	return d
+}
+
+// valueOnlyType: values of the type contain no reference to mutable shared memory (no pointers, slices, maps,
+// channels, functions or interfaces).
+func valueOnlyType(t types.Type, depth int) bool {
+	if depth > 4 {
+		return false
+	}
+	switch u := types.Unalias(t).Underlying().(type) {
+	case *types.Basic:
+		return u.Kind() != types.UnsafePointer
+	case *types.Struct:
+		for i := 0; i < u.NumFields(); i++ {
+			if !valueOnlyType(u.Field(i).Type(), depth+1) {
+				return false
+			}
+		}
+		return true
+	case *types.Array:
+		return valueOnlyType(u.Elem(), depth+1)
+	}
+	return false
 }
 
 // addrRootHeap: like addrRoot but treating allocs as heap objects.
@@ -373,6 +400,30 @@ func (p *Program) modSets(fn *ssa.Function) ([]string, []string) {
 				}
 			}
 		}
+	}
+	// a function that receives no references and reads no reference-holding global can only write objects that
+	// it (or its callees) allocated: all its writes are allocation-only effects
+	isolated := fn.Signature.Recv() == nil && len(fn.FreeVars) == 0 && len(sigs) == 0
+	for i := 0; isolated && i < fn.Signature.Params().Len(); i++ {
+		if !valueOnlyType(fn.Signature.Params().At(i).Type(), 0) {
+			isolated = false
+		}
+	}
+	if isolated {
+		for f := range seen {
+			if p.direct(f).readsRefGlobal {
+				isolated = false
+			}
+		}
+	}
+	if isolated {
+		for h := range set {
+			if !strings.HasPrefix(h, "G.") {
+				fresh[h] = true
+				delete(set, h)
+			}
+		}
+		p.isolated[fn] = true
 	}
 	out := sortedSet(set)
 	for h := range set {
